@@ -96,7 +96,8 @@ def next_section(name="", report=MAIN_REPORT):
     section_number = _calculate_section_number(section_index)
     report[TOOL_NAME]['section_group'] = FeedbackSourceSection(section_number)
     sections = source['sections']
-    found = _calculate_section_number(len(source['sections']))
+    # `sections` alternates code and separators, starting and ending with code
+    found = _calculate_section_number(len(source['sections']) - 1)
     if section_number <= found:
         if source['independent']:
             new_code = ''.join(sections[section_index])
